@@ -1,11 +1,207 @@
 /-
-Props/C18.lean — property theorems for C18 (map[string]any inspector).
+Props/C18.lean — property theorems for C18 (map[string]any inspector follows key paths through nested maps).
+
+For the repaired runtime model (`LibCfg.fixed`; only Capacity and the leaf comparison depend on the
+configuration), every tree, every key path, operator, operand and source: the outcome of Get / Length /
+Capacity / Compare / Set / Copy is accepted by the independent specification (Spec/StrAnyMapSpec.lean), with the
+pairing the driver uses (Driver/LibOps.lean `samapOp*`).
+
+The model represents a Go map as an association list and a leaf as kind + value; the theorems need the
+representation invariants of real Go values, explicit as decidable predicates (Proofs/C18.lean):
+`JMapsOK` (as many values as keys, distinct keys, a nil map is empty) and `JLeavesOK` (a `.str` value has a text
+kind, a `.bytes` value has kind `[]byte`). `hypothesis_needed_*` below show that each is needed.
+The model of the current tree is rejected on the class `samap-cap-is-len` (`repo_not_correct`).
 -/
-import InspectorModel.Lib.StrAnyMap
-import InspectorModel.Spec.StrAnyMapSpec
+import InspectorModel.Proofs.C18
 namespace Inspector.C18
 
 /-- The empty path addresses the node itself. -/
 theorem get_empty (j : JVal) : (match samapGet j [] with | .node _ => true | _ => false) = true := rfl
+
+/-! ### Get -/
+
+/-- Get hands out the node the path leads to, nothing for an absent key, the unsupported-type error through a non-map. -/
+theorem get_correct (j : JVal) (p : List Bytes) (hw : JMapsOK j = true) :
+    samapGetAccepts j p (samapGet j p) = true := by
+  rw [samapGet_eq_jnav]
+  unfold samapGetAccepts
+  cases h : jnav j p with
+  | found x => exact jeq_refl x (jnav_JMapsOK p j x h hw)
+  | absent => rfl
+  | nonMap => rfl
+  | unspec => rfl
+
+/-- The driver's guard (`acc` of `samapOpGet`): a stored untyped nil is observed as "nothing". -/
+def getAcc (j : JVal) (p : List Bytes) (o : JGet) : Bool :=
+  let norm (o : JGet) : JGet := match o with | .node .nil => .none | x => x
+  match jnav j p with
+  | .found .nil => (match norm o with | .none => true | _ => false)
+  | _ => samapGetAccepts j p o
+
+theorem get_correct_driver (j : JVal) (p : List Bytes) (hw : JMapsOK j = true) :
+    getAcc j p (samapGet j p) = true := by
+  have h := get_correct j p hw
+  unfold getAcc
+  rw [samapGet_eq_jnav] at h ⊢
+  cases hn : jnav j p with
+  | found x =>
+    cases x with
+    | nil => rfl
+    | _ => simp only [hn] at h; exact h
+  | _ => simp only [hn] at h; exact h
+
+/-- Get panics only for a nil pointer to a map on the way. -/
+theorem get_panic_only (j : JVal) (p : List Bytes) (h : (match jnav j p with | .unspec => false | _ => true) = true) :
+    (match samapGet j p with | .panic => false | _ => true) = true := by
+  rw [samapGet_eq_jnav]
+  cases hn : jnav j p <;> simp [hn] at h ⊢
+
+/-! ### Length / Capacity -/
+
+theorem len_correct (j : JVal) (p : List Bytes) (hw : JLeavesOK j = true) :
+    samapLcAccepts false j p (samapLen j p) = true := samapLen_ok p j hw
+
+theorem cap_correct (j : JVal) (p : List Bytes) (hw : JLeavesOK j = true) :
+    samapLcAccepts true j p (samapCap LibCfg.fixed j p) = true := samapCap_ok p j hw
+
+/-- As the driver pairs them (`samapOpLC`). -/
+theorem lc_correct (isCap : Bool) (j : JVal) (p : List Bytes) (hw : JLeavesOK j = true) :
+    samapLcAccepts isCap j p (if isCap then samapCap LibCfg.fixed j p else samapLen j p) = true := by
+  cases isCap
+  · exact len_correct j p hw
+  · exact cap_correct j p hw
+
+/-! ### Compare -/
+
+/-- Compare answers with the static comparison of the leaf the path leads to; absent keys leave the result
+alone; through a non-map the unsupported-type error is returned. (The driver skips inexact float operands;
+the theorem needs no such guard.) -/
+theorem cmp_correct (j : JVal) (p : List Bytes) (op : Op) (right : Seg) (hw : JMapsOK j = true) :
+    samapCmpAccepts j p op right (samapCmp LibCfg.fixed j p op right) = true := samapCmp_ok op right p j hw
+
+/-- The leaf step on its own (C16's Compare statement): every operand, operator and operand text. -/
+theorem leaf_cmp_correct (s : Src) (op : Op) (right : Seg) :
+    staticCmpAccepts s op right (staticCmp LibCfg.fixed s op right) = true := staticCmp_correct s op right
+
+/-! ### Set -/
+
+/-- A nil pointer to a map on the way (`jnav … = .unspec`): outside the property (a listed finding of C02). -/
+def nilPtrOnPath (j : JVal) (p : List Bytes) : Bool :=
+  match jnav j p with | .unspec => true | _ => false
+
+/-- The driver's judgement in `fixedcheck` mode: a panic is passed on to its own class, anything else must be accepted. -/
+def setAcc (j : JVal) (p : List Bytes) (src : Src) (o : JSet) : Bool :=
+  match o with
+  | .panic => true
+  | o => samapSetAccepts j p src o
+
+theorem set_correct_driver (j : JVal) (p : List Bytes) (src : Src) (hw : JMapsOK j = true) :
+    setAcc j p src (samapSet j p src) = true := by
+  cases p with
+  | nil => simp [samapSet, setAcc, samapSetAccepts, samapFrame_nil]
+  | cons k rest =>
+    have hc := samapSet_claim src rest k j hw
+    unfold setAcc
+    cases hres : samapSet j (k :: rest) src with
+    | panic => rfl
+    | ok after =>
+      rw [hres] at hc
+      obtain ⟨hf, hs⟩ := hc
+      simp only [samapSetAccepts, hf, Bool.true_and]
+      cases hl : samapLeafOf src with
+      | none => rfl
+      | some x =>
+        have := hs x hl
+        simp only []
+        cases hn : jnav after (k :: rest) <;> simp only [hn] at this ⊢ <;> first | exact this | simp [this]
+    | unsupported after =>
+      rw [hres] at hc
+      obtain ⟨hf, hs⟩ := hc
+      simp only [samapSetAccepts, hf, Bool.true_and]
+      cases hl : samapLeafOf src with
+      | none => rfl
+      | some x => simp only [hs]
+
+/-- Set panics only for a nil pointer as the value or a nil pointer to a map on the way. -/
+theorem set_panic_only (j : JVal) (p : List Bytes) (src : Src) (h : (match samapSet j p src with | .panic => true | _ => false) = true) :
+    src.v.isNilPtr = true ∨ nilPtrOnPath j p = true := by
+  cases hres : samapSet j p src with
+  | panic =>
+    rcases samapSet_panic src p j hres with h1 | h1
+    · exact Or.inl h1
+    · right; unfold nilPtrOnPath; rw [h1]
+  | ok _ => simp [hres] at h
+  | unsupported _ => simp [hres] at h
+
+/-- Set creates or replaces exactly the addressed leaf (creating intermediate maps), nothing else changes. -/
+theorem set_correct (j : JVal) (p : List Bytes) (src : Src) (hw : JMapsOK j = true) (hnp : nilPtrOnPath j p = false) :
+    samapSetAccepts j p src (samapSet j p src) = true := by
+  have h := set_correct_driver j p src hw
+  unfold setAcc at h
+  cases hres : samapSet j p src with
+  | panic =>
+    rcases samapSet_panic src p j hres with h1 | h1
+    · simpa [samapSetAccepts] using h1
+    · unfold nilPtrOnPath at hnp; rw [h1] at hnp; cases hnp
+  | ok after => rw [hres] at h; exact h
+  | unsupported after => rw [hres] at h; exact h
+
+/-! ### Copy -/
+
+/-- Copy yields a tree equal to the source; the second component (pointers copied as pointers, the only
+thing source and copy share) is exactly the number of pointer-to-scalar leaves. -/
+theorem copy_correct_general (j c : JVal) (s : Nat) (hw : JMapsOK j = true) (h : samapCpy j = some (c, s)) :
+    jeq j c = true ∧ s = ptrLeafCount j := samapCpy_ok j c s hw h
+
+/-- As the driver judges it (`samapOpCopy`, root map not nil): `s ≤ ptrLeafCount … && jeq … c`. -/
+theorem copy_correct (ks : List Bytes) (vs : List JVal) (c : JVal) (s : Nat)
+    (hw : JMapsOK (.map 0 0 false ks vs) = true) (h : samapCpy (.map 0 0 false ks vs) = some (c, s)) :
+    (decide (s ≤ ptrLeafCount (.map 0 0 false ks vs)) && jeq (.map 0 0 false ks vs) c) = true := by
+  obtain ⟨h1, h2⟩ := samapCpy_ok _ c s hw h
+  simp [h1, h2]
+
+/-- Independence: on the trees the property quantifies over (no pointer-to-scalar leaves) nothing is shared. -/
+theorem copy_independent (j c : JVal) (s : Nat) (hw : JMapsOK j = true) (h : samapCpy j = some (c, s))
+    (hq : ptrLeafCount j = 0) : s = 0 := by
+  rw [(samapCpy_ok j c s hw h).2, hq]
+
+/-- Copy panics only for a nil pointer (to a map, or a nil `*string` / `*[]byte` leaf) somewhere in the tree. -/
+theorem copy_panic_only (j : JVal) (h : (samapCpy j).isNone = true) : jHasNil j = true :=
+  samapCpy_none j (by simpa using h)
+
+section NonVacuity
+def key (t : String) : Bytes := strBytes t
+/-- `{"a": 5, "m": &map[string]any{"s": "xy"}, "b": []byte("ab") with cap 8}` -/
+def exJ : JVal :=
+  .map 0 0 false [key "a", key "m", key "b"]
+    [.leaf { kind := .int, v := .int 5 },
+     .map 1 0 false [key "s"] [.leaf { kind := .string, v := .str (strBytes "xy") }],
+     .leaf { kind := .bytes, v := .bytes false (strBytes "ab") 8 }]
+def srcStr : Src := { kind := .string, v := .str (strBytes "new") }
+
+example : JMapsOK exJ = true ∧ JLeavesOK exJ = true := by decide
+example : nilPtrOnPath exJ [key "m", key "t"] = false ∧ jHasNil exJ = false := by decide
+example : (match samapGet exJ [key "m", key "s"] with | .node (.leaf s) => s.v == .str (strBytes "xy") | _ => false) = true := by decide
+example : samapLen exJ [key "m"] = .val 1 := by decide
+example : samapCap LibCfg.fixed exJ [key "b"] = .val 8 := by decide
+example : (match samapSet exJ [key "m", key "t"] srcStr with
+    | .ok after => (match samapGet after [key "m", key "t"] with | .node (.leaf s) => s.v == .str (strBytes "new") | _ => false)
+    | _ => false) = true := by decide
+example : (match samapCpy exJ with | some (c, s) => jeq exJ c && s == 0 | none => false) = true := by decide
+
+/-- Known finding `samap-cap-is-len`: Capacity with a non-empty path answers with the length. -/
+theorem repo_not_correct :
+    samapLcAccepts true exJ [key "b"] (samapCap LibCfg.repo exJ [key "b"]) = false := by decide
+
+/-- `JMapsOK` is needed: with a repeated key (not a Go map) the tree is not even equal to itself. -/
+example : let j : JVal := .map 0 0 false [key "a", key "a"] [.leaf { kind := .int, v := .int 1 }, .leaf { kind := .int, v := .int 2 }]
+    samapGetAccepts j [] (samapGet j []) = false := by decide
+/-- `JMapsOK` is needed: a "nil map with entries" (not a Go value) is navigated by the spec but not by Compare. -/
+example : let j : JVal := .map 0 0 true [key "a"] [.leaf { kind := .int, v := .int 1 }]
+    samapCmpAccepts j [key "a"] 1 { text := strBytes "1", pi := some 1 } (samapCmp LibCfg.fixed j [key "a"] 1 { text := strBytes "1", pi := some 1 }) = false := by decide
+/-- `JLeavesOK` is needed: an `int` leaf carrying a string value (not a Go value). -/
+example : let j : JVal := .leaf { kind := .int, v := .str (strBytes "x") }
+    samapLcAccepts false j [] (samapLen j []) = false := by decide
+end NonVacuity
 
 end Inspector.C18
